@@ -117,19 +117,39 @@ WeakPath(path, lastEl) ==
 \* innermost heading of its section path
 TitleOK(ch) == IF ch.title = -1 \/ Len(ch.path) = 0 THEN TRUE ELSE ch.title = ch.path[Len(ch.path)]
 
+\* A HOLLOW element has no content unit (n = 0): a table without rows or with empty
+\* cells, a list without items, a heading or paragraph of white space, an image
+\* without description.  A chunker may emit a chunk for it or not; such a chunk has
+\* no unit (k = 0) and is only possible where a hollow element stands: all units
+\* before that element are consumed and none after it.
+HollowAt(c) == \E i \in 1..Len(doc) : doc[i].n = 0 /\ FirstOf(doc, i) = c + 1
+
+\* the pages a chunk's content comes from: the pages of the elements that own its
+\* units; hollow elements standing directly before, between or after those units
+\* may have been taken into the chunk (their white space is part of its text), so
+\* their pages are admissible too
+PagesOf(first, k) ==
+    {doc[i].pg : i \in ElemsOf(doc, first, first + k - 1)}
+    \cup {doc[i].pg : i \in {j \in 1..Len(doc) : doc[j].n = 0 /\ FirstOf(doc, j) \in first..(first + k)}}
+
+\* hollow headings have no text by which a path could name them: -1 stands for them
+NormPath(p) == [j \in 1..Len(p) |-> IF p[j] \in 1..Len(doc) THEN (IF doc[p[j]].n = 0 THEN -1 ELSE p[j]) ELSE p[j]]
+
 EmitOK(ch) ==
-    /\ ch.k >= 1
+    /\ ch.k >= 0
     /\ ch.first = consumed + 1
     /\ ch.first + ch.k - 1 <= NUnits(doc)
     /\ ch.index = nchunks
     /\ ch.id \notin ids
-    /\ LET els == ElemsOf(doc, ch.first, ch.first + ch.k - 1)
-           pgs == {doc[i].pg : i \in els}
-       IN /\ ch.ps <= ch.pe
-          /\ ch.ps >= SetMin(pgs) /\ ch.pe <= SetMax(pgs)
-          /\ \/ \E i \in els : \E m \in {7, minor} : ch.path = Enclosing(doc, i, m)
-             \/ minor = 0 /\ WeakPath(ch.path, SetMax(els))
-          /\ TitleOK(ch)
+    /\ IF ch.k = 0
+       THEN HollowAt(consumed)   \* index, id (and the total at Finish) are all that is asked of it
+       ELSE LET els == ElemsOf(doc, ch.first, ch.first + ch.k - 1)
+                pgs == PagesOf(ch.first, ch.k)
+            IN /\ ch.ps <= ch.pe
+               /\ ch.ps >= SetMin(pgs) /\ ch.pe <= SetMax(pgs)
+               /\ \/ \E i \in els : \E m \in {7, minor} : ch.path = NormPath(Enclosing(doc, i, m))
+                  \/ minor = 0 /\ WeakPath(ch.path, SetMax(els))
+               /\ TitleOK(ch)
 
 Consume(ch) ==
     /\ consumed' = consumed + ch.k
@@ -179,10 +199,12 @@ StartChunking ==
 
 \* every legal chunk, with the canonical fresh id
 LegalChunks ==
-    {ch \in [first : {consumed + 1}, k : 1..(NUnits(doc) - consumed), index : {nchunks},
+    {ch \in [first : {consumed + 1},
+             k : (IF nchunks < NUnits(doc) + Cardinality({i \in 1..Len(doc) : doc[i].n = 0}) THEN 0 ELSE 1)..(NUnits(doc) - consumed),
+             index : {nchunks},
              id : {nchunks},
              ps : ToSet(pages), pe : ToSet(pages),
-             path : {Enclosing(doc, i, 7) : i \in 1..Len(doc)}, title : {-1}] : EmitOK(ch)}
+             path : {NormPath(Enclosing(doc, i, 7)) : i \in 1..Len(doc)}, title : {-1}] : EmitOK(ch)}
 
 ContractNext ==
     \/ \E ch \in LegalChunks : Emit(ch)
@@ -226,10 +248,19 @@ ImplChunk(first, k, pg, pref) ==
 \* everything of EmitOK except the path, which is judged when the walk is over
 \* (PathsTrue), because a shared slice can still change
 ImplEmitOK(ch) ==
-    /\ ch.k >= 1 /\ ch.first = consumed + 1 /\ ch.first + ch.k - 1 <= NUnits(doc)
+    /\ ch.k >= 0 /\ ch.first = consumed + 1 /\ ch.first + ch.k - 1 <= NUnits(doc)
     /\ ch.index = nchunks /\ ch.id \notin ids
-    /\ LET pgs == {doc[i].pg : i \in ElemsOf(doc, ch.first, ch.first + ch.k - 1)}
-       IN ch.ps <= ch.pe /\ ch.ps >= SetMin(pgs) /\ ch.pe <= SetMax(pgs)
+    /\ IF ch.k = 0 THEN HollowAt(consumed)
+       ELSE LET pgs == {doc[i].pg : i \in ElemsOf(doc, ch.first, ch.first + ch.k - 1)}
+            IN ch.ps <= ch.pe /\ ch.ps >= SetMin(pgs) /\ ch.pe <= SetMax(pgs)
+
+\* HollowDrop: the chunk of a hollow element is thrown away AFTER it took its index
+\* and id from the running counter (the refutable variant: holes in the indices)
+HollowDrop == FALSE
+ConsumeImpl(ch) ==
+    IF HollowDrop /\ ch.k = 0
+    THEN /\ nchunks' = nchunks + 1 /\ ids' = ids \cup {ch.id} /\ UNCHANGED <<consumed, emitted>>
+    ELSE Consume(ch)
 
 \* flushTextBlock: an accumulated block leaves as one or more chunks (SplitToSize)
 Flush ==
@@ -250,20 +281,21 @@ Visit ==
        CASE e.k = "H" ->
               LET kept == [arr |-> cur.arr, len |-> KeepLen(e.a)]
                   r    == AppendMem(kept, pos)
-                  ch   == ImplChunk(FirstOf(doc, pos), 1, e.pg, PathRef(r.c, r.m, TRUE))
+                  ch   == ImplChunk(FirstOf(doc, pos), e.n, e.pg, PathRef(r.c, r.m, TRUE))
               IN /\ mem' = r.m /\ cur' = r.c
                  /\ lvls' = Append(SubSeq(lvls, 1, kept.len), e.a)
                  /\ curLevel' = e.a
-                 /\ ImplEmitOK(ch) /\ Consume(ch)
+                 /\ ImplEmitOK(ch) /\ ConsumeImpl(ch)
                  /\ UNCHANGED block
          [] e.k = "P" ->
               /\ block' = IF block.k = 0
                           THEN [first |-> FirstOf(doc, pos), k |-> e.n, pg |-> e.pg, path |-> CurPath]
                           ELSE [block EXCEPT !.k = @ + e.n, !.path = CurPath]
               /\ UNCHANGED <<consumed, nchunks, ids, emitted, cur, lvls, curLevel, mem>>
-         [] e.k \in {"L", "T", "I"} /\ e.n > 0 ->
+         [] (e.k \in {"L", "T"}) \/ (e.k = "I" /\ e.n > 0) ->
+              \* a list / table always leaves as a chunk, also one without items / rows
               LET ch == ImplChunk(FirstOf(doc, pos), e.n, e.pg, PathRef(cur, mem, TRUE))
-              IN /\ ImplEmitOK(ch) /\ Consume(ch)
+              IN /\ ImplEmitOK(ch) /\ ConsumeImpl(ch)
                  /\ UNCHANGED <<block, cur, lvls, curLevel, mem>>
          [] OTHER ->
               UNCHANGED <<consumed, nchunks, ids, emitted, block, cur, lvls, curLevel, mem>>
@@ -332,6 +364,6 @@ PathsTrue ==
         \A j \in 1..Len(emitted) :
             LET ch == emitted[j]
                 i  == SetMin(ElemsOf(doc, ch.first, ch.first + ch.k - 1))
-            IN Resolve(ch.path) = Enclosing(doc, i, 7)
+            IN ch.k = 0 \/ Resolve(ch.path) = Enclosing(doc, i, 7)
 
 =============================================================================
